@@ -19,7 +19,13 @@ import (
 type scnCall struct {
 	Call Call `json:"call"`
 	New  bool `json:"new,omitempty"` // not recorded beforehand: the run itself adds it
+	// Mut (C20 only): in the run the call differs from what was recorded: "changed" value, or a failing "matcher"
+	Mut string `json:"mut,omitempty"`
 }
+
+// onCall, if set, is told the outcome of every call of the run (not of the preparation).
+var scnOnCall func(out string)
+
 
 type scnTest struct {
 	Name     string    `json:"name"`
@@ -50,6 +56,8 @@ type cleanScn struct {
 	Sort    bool         `json:"sort"`
 	Count   int          `json:"count"`
 	RunOnly string       `json:"run"`
+	// Dangling >= 0: the file of that config ends with an unterminated entry of an absent test (a truncated file); C07 only
+	Dangling int `json:"dangling_cfg"`
 }
 
 func soloOf(c CfgSpec) CfgSpec { c.Filename = ""; return c }
@@ -68,7 +76,7 @@ type scnOpts struct {
 }
 
 func genCleanScn(t *rapid.T, col *collector, so scnOpts) cleanScn {
-	s := cleanScn{Count: rapid.SampledFrom([]int{1, 1, 2, 3}).Draw(t, "count"), Mode: genCleanMode(t), Sort: rapid.Bool().Draw(t, "sort")}
+	s := cleanScn{Count: rapid.SampledFrom([]int{1, 1, 2, 3}).Draw(t, "count"), Mode: genCleanMode(t), Sort: rapid.Bool().Draw(t, "sort"), Dangling: -1}
 	s.Cfgs = []CfgSpec{{Dir: "snaps", Filename: "f", DirStyle: rapid.SampledFrom([]string{"", "", "", "trailing", "dot", "dotdot", "double"}).Draw(t, "dirstyle")}}
 	if rapid.Bool().Draw(t, "cfg2") {
 		s.Cfgs = append(s.Cfgs, CfgSpec{Dir: "snaps", Filename: "g", Ext: rapid.SampledFrom([]string{".txt", ".json", ".snap", ""}).Draw(t, "ext2")})
@@ -169,6 +177,16 @@ func genCleanScn(t *rapid.T, col *collector, so scnOpts) cleanScn {
 			s.Extra = append(s.Extra, it)
 		}
 	}
+	if so.runFilter && rapid.IntRange(0, 5).Draw(t, "dangling") == 0 {
+		s.Dangling = rapid.IntRange(0, len(s.Cfgs)-1).Draw(t, "danglingcfg")
+		// nothing is appended behind the torn entry in this run: entries written after an unterminated one belong to its body
+		// as far as any reader of the format can tell (malformed input, outside the domain of the properties)
+		for ti := range s.Tests {
+			for ci := range s.Tests[ti].Calls {
+				s.Tests[ti].Calls[ci].New = false
+			}
+		}
+	}
 	if so.runFilter {
 		tops := map[string]bool{}
 		for _, st := range s.Tests {
@@ -265,10 +283,20 @@ func (s cleanScn) execute(root string, mode Mode, count int, record bool) error 
 				if c.Call.standalone() {
 					cfg = solos[c.Call.Cfg]
 				}
-				r := c.Call.invoke(cfg, ft)
+				call := c.Call
+				if !record && c.Mut != "" {
+					call = mutatedCall(call, c.Mut)
+				}
+				r := call.invoke(cfg, ft)
 				out, err := outcomeOf(r)
 				if err != nil {
-					return fmt.Errorf("%s call %d: %v", st.Name, k+1, err)
+					return fmt.Errorf("%s call %d (%s): %v", st.Name, k+1, call.API, err)
+				}
+				if !record && scnOnCall != nil {
+					scnOnCall(out)
+				}
+				if !record && c.Mut != "" {
+					continue
 				}
 				if record && out != oAdded {
 					return fmt.Errorf("preparation: %s call %d (%s) outcome %s errors=%q", st.Name, k+1, c.Call.API, out, clipAll(r.Errors))
@@ -314,6 +342,12 @@ func (s cleanScn) prepare(root string) error {
 		}
 		os.MkdirAll(filepath.Dir(p), 0o755)
 		os.WriteFile(p, []byte(refRender(es)), 0o644)
+	}
+	if s.Dangling >= 0 && s.Dangling < len(s.Cfgs) {
+		p := filepath.Join(root, s.Cfgs[s.Dangling].multiPath())
+		if b, err := os.ReadFile(p); err == nil {
+			os.WriteFile(p, append(b, []byte("\n[TestTruncatedXyz - 1]\na dangling line without terminator\nsecond dangling line\n")...), 0o644)
+		}
 	}
 	for _, it := range s.Extra {
 		p := filepath.Join(root, it.Path)
@@ -390,7 +424,7 @@ func checkC07(s cleanScn) error {
 	}
 	allowedListings := map[string]int{}
 	for file, ids := range r.model.multiLive {
-		pre, _ := refParse(r.preClean[file].Data)
+		pre := refParseLoose(r.preClean[file].Data)
 		for _, e := range pre {
 			if !ids[string(e.ID)] {
 				allowedListings[string(e.ID)]++
@@ -398,6 +432,9 @@ func checkC07(s cleanScn) error {
 		}
 	}
 	for id, n := range listedTests {
+		if id == "TestTruncatedXyz - 1" {
+			continue
+		}
 		if n > allowedListings[id] {
 			for _, ids := range r.model.multiLive {
 				if ids[id] {
@@ -411,10 +448,7 @@ func checkC07(s cleanScn) error {
 		if listedFiles[file] {
 			return fmt.Errorf("addressed file %q is listed as obsolete", file)
 		}
-		pre, perr := refParse(r.preClean[file].Data)
-		if perr != nil {
-			return fmt.Errorf("harness: file %q not well formed before Clean: %v", file, perr)
-		}
+		pre := refParseLoose(r.preClean[file].Data)
 		if _, ok := r.afterClean[file]; !ok {
 			if _, existed := r.preClean[file]; existed {
 				return fmt.Errorf("addressed file %q was deleted by Clean", file)
@@ -422,8 +456,11 @@ func checkC07(s cleanScn) error {
 			continue
 		}
 		post, perr := refParse(r.afterClean[file].Data)
-		if perr != nil {
+		if perr != nil && s.Dangling < 0 {
 			return fmt.Errorf("file %q after Clean is not well formed: %v; content %q", file, perr, clip(r.afterClean[file].Data))
+		}
+		if perr != nil {
+			post = refParseLoose(r.afterClean[file].Data)
 		}
 		for id := range ids {
 			i := findEntry(pre, id)
@@ -541,6 +578,9 @@ func classifyCleanScn(s cleanScn) ([]string, bool) {
 	}
 	if s.RunOnly != "" {
 		cls = append(cls, "run_filter")
+	}
+	if s.Dangling >= 0 {
+		cls = append(cls, "file_with_unterminated_last_entry")
 	}
 	if s.Mode.CI {
 		cls = append(cls, "ci")
@@ -745,5 +785,101 @@ func TestC09_CleanReportsStale(t *testing.T) {
 	prop[cleanScn]{property: "C09", check: checkC09, classify: classifyC09,
 		gen: func(t *rapid.T) cleanScn {
 			return genCleanScn(t, getCollector("C09", "TestC09_CleanReportsStale"), scnOpts{skips: true})
+		}}.run(t)
+}
+
+// mutatedCall: the same call with a changed value or with a matcher that fails.
+func mutatedCall(c Call, mut string) Call {
+	if mut == "matcher" && (c.API == "json" || c.API == "sjson" || c.API == "yaml") {
+		path := "no.such.path"
+		if c.API == "yaml" {
+			path = "$.no.such.path"
+		}
+		c.Matchers = []MatcherSpec{{Kind: "any", Paths: []string{path}}}
+		return c
+	}
+	switch c.API {
+	case "snap", "ssnap":
+		c.Vals = []Val{strVal("a changed value " + c.snapText())}
+	case "json", "sjson":
+		c.Doc = BS(`{"changed":` + string(c.Doc) + `}`)
+		if c.Form == "value" {
+			c.Form = "string"
+		}
+	case "yaml":
+		c.Doc = "changed: true\n"
+		c.Form = "string"
+	}
+	return c
+}
+
+// ---- C20: all five entry points, every outcome class, then Clean: the summary totals equal the tallies ----------------
+
+func genC20Scn(t *rapid.T) cleanScn {
+	s := genCleanScn(t, getCollector("C20", "TestC20_AllAPIs"), scnOpts{skips: true})
+	for ti := range s.Tests {
+		for ci := range s.Tests[ti].Calls {
+			if s.Tests[ti].Calls[ci].New {
+				continue
+			}
+			switch rapid.IntRange(0, 5).Draw(t, "mut") {
+			case 0:
+				s.Tests[ti].Calls[ci].Mut = "changed"
+			case 1:
+				s.Tests[ti].Calls[ci].Mut = "matcher"
+			}
+		}
+	}
+	return s
+}
+
+func checkC20Scn(s cleanScn) error {
+	tally := map[string]int{}
+	scnOnCall = func(out string) { tally[out]++ }
+	defer func() { scnOnCall = nil }()
+	r, cleanup, err := s.run()
+	defer cleanup()
+	if err != nil {
+		return err
+	}
+	skips := 0
+	for _, st := range s.Tests {
+		if st.SkipAt >= 0 {
+			skips += s.Count
+		}
+	}
+	total := 0
+	for _, n := range tally {
+		total += n
+	}
+	if !r.sum.Present {
+		if total+skips > 0 {
+			return fmt.Errorf("no summary printed although the process had outcomes %v and %d skips", tally, skips)
+		}
+		return nil
+	}
+	if err := checkSummaryTotals(r.sum, tally, skips); err != nil {
+		return fmt.Errorf("mode %+v count %d: %v", s.Mode, s.Count, err)
+	}
+	return nil
+}
+
+func TestC20_AllAPIs(t *testing.T) {
+	prop[cleanScn]{property: "C20", gen: genC20Scn, check: checkC20Scn, weight: 0.5,
+		classify: func(s cleanScn) ([]string, bool) {
+			cls, _ := classifyCleanScn(s)
+			kinds := map[string]bool{}
+			for _, st := range s.Tests {
+				for _, c := range st.Calls {
+					if c.Mut != "" {
+						kinds["mut_"+c.Mut+"_"+c.Call.API] = true
+					}
+				}
+			}
+			for k := range kinds {
+				cls = append(cls, k)
+			}
+			sort.Strings(cls)
+			return cls, len(kinds) >= 2
 		}}.run(t)
 }
